@@ -11,6 +11,20 @@ CLAIMED = {
    note="Trusted: go/ssa translation of the two functions, the ~250-line RLIN evaluator, math/big. An arithmetic operator outside {+,-,*const,/const,%const, comparisons uniform per class} is reported as a failed obligation, not silently accepted.",
    technique="residue-linear symbolic evaluation of SSA (abstract interpretation over linear forms) + comparison-orientation census",
  ),
+ "C01": dict(
+   category="other",
+   text="Structural necessary conditions decided exactly on SSA: the sites at which a header becomes committed are enumerated (single caller of the voting->committing shift, writers of the committing header, single caller of SaveCommittedHeader, the replay handler, the catch-up hand-off) and each is shown to be dominated on every CFG path by the majority / non-nil / header-identity / hash / signature / AllValidSignatures checks with the operands the property requires (same vote summary, voting validator set, kernel-supplied previous validator set); verify-before-set in both proof schemes; threshold comparison orientation.",
+   design_ref="DESIGN.md §4 C01",
+   note="Does not decide cryptographic validity, nor that histories cannot make the guards hold spuriously; relies on C06 for the vote summary. Value shapes ignore intervening mutation of a field (stated limit).",
+   technique="who-may-call/who-may-write + guard edge-dominance on SSA CFG with canonical value shapes + provenance of call arguments",
+ ),
+ "C13": dict(
+   category="other",
+   text="Decides the code-shape conditions the merge laws rest on, for both shipped schemes: verify-before-set at every signature/bit write (and that no other function writes those fields), bounded fixed-width reads of key ids and encoded keys, clone independence field by field, clearing of AllValidSignatures on every rejecting edge, flag tests in the commit-proof finalizer. The algebraic laws themselves (union, idempotence, round trip) quantify over values and are not decided.",
+   design_ref="DESIGN.md §4 C13",
+   note="Not decided: set-union/idempotence/round-trip equalities, BLS aggregation arithmetic, combination index encode/decode. Trusted: ed25519/blst Verify, bitset semantics.",
+   technique="guard edge-dominance with pre-bound value shapes, who-may-write, bounded-read (length test dominance), composite-literal field freshness",
+ ),
  "C16": dict(
    category="other",
    text="Structural necessary conditions, decided exactly on SSA: lockset dataflow over all 22 methods of the 7 tmmemstore types (every access to a guarded field or anything reached from it under the receiver mutex, writes under Lock, exactly one acquisition per method, so each method is one atomic step); guard dominance for the no-overwrite contracts (double action, key change, finalization overwrite, duplicate validator data); key/value wiring of every map write and load and the documented not-found error on every miss edge.",
